@@ -299,6 +299,73 @@ def rank_sweep(rep):
     return n
 
 
+ENTRY = ("add", "addv", "list", "tuple", "dict", "counter", "ngram", "upd_ngram")
+
+
+def entry_case(p, seed, keys, entry):
+    """The key set fed through ONE entry point on a fresh sketch: registers must be the
+    max-rank-over-key-set model (keys with trailing / leading / only NUL bytes, the empty key)."""
+    from collections import Counter
+
+    keys = [bytes(k) for k in keys]
+    sk = SK.make("hll", p, seed)
+    n = max(len(k) for k in keys) + 1
+    if entry == "add":
+        for k in keys:
+            sk.add(k)
+    elif entry == "addv":
+        for k in keys:
+            sk.add(k, 3)
+    elif entry == "list":
+        sk.update(keys + keys[:1])
+    elif entry == "tuple":
+        sk.update(tuple(keys))
+    elif entry == "dict":
+        sk.update({k: 2 for k in keys})
+    elif entry == "counter":
+        sk.update(Counter(keys + keys))
+    elif entry == "ngram":
+        for k in keys:
+            sk.add_ngram(k, n)  # n > len(key): the key is added whole
+    else:
+        sk.update_ngram(keys, n)
+    want = M3.registers(p, seed, tuple(sorted(set(keys))))
+    got = sk.registers.tobytes()
+    if got == want:
+        return False, {}
+    a, b = np.frombuffer(got, np.uint8), np.frombuffer(want, np.uint8)
+    d = np.nonzero(a != b)[0]
+    return True, {"registers_differing": int(len(d)), "first": [int(d[0]), int(a[d[0]]), int(b[d[0]])]}
+
+
+def nul_keys(rep):
+    salt = rep.seed % 1000
+    n = 0
+    for p, seed in ((7, 0), (11, 2**63 + 1), (16, 2**64 - 1)):
+        c = M3.craft(p, seed, (salt * 13 + 5) % (1 << p), 5)
+        keys = [b"\x00", b"a\x00", b"a\x00\x00", b"\x00a", b"a", b"", c + b"\x00", c,
+                b"\x00" * 8, b"\x00" * 9]
+        for entry in ENTRY:
+            for ks in ([k] for k in keys):
+                bad, obs = entry_case(p, seed, ks, entry)
+                n += 1
+                rep.evals()
+                if bad:
+                    rep.violation({"kind": "entry", "p": p, "seed": seed, "keys": ks, "entry": entry},
+                                  f"p={p} seed={seed}: key {ks[0]!r} through {entry}: registers "
+                                  f"differ from the model (register, got, model) = {obs['first']}")
+            bad, obs = entry_case(p, seed, keys, entry)
+            n += 1
+            rep.evals()
+            rep.nontrivial(("entry", p, entry))
+            if bad:
+                rep.violation({"kind": "entry", "p": p, "seed": seed, "keys": keys, "entry": entry},
+                              f"p={p} seed={seed}: {len(keys)} keys incl. NUL-terminated ones through "
+                              f"{entry}: {obs['registers_differing']} registers differ from the model")
+    rep.part("nul_keys_by_entry_point", cases=n)
+    return n
+
+
 def run(rep):
     from ..pool import run_tasks
 
@@ -315,6 +382,7 @@ def run(rep):
         print(f"  {name}: states={st['states']} trans={st['transitions']} depth={st['depth']} "
               f"closed={st['closed']} nontrivial={st['nontrivial']} {st['wall_s']}s", flush=True)
     n = rank_sweep(rep)
+    n += nul_keys(rep)
     rep.add("transitions", n)
     rep.add("traces_validated_against_impl", n)
     rep.set("closed", all_closed)
@@ -331,6 +399,8 @@ def run(rep):
 
 
 def replay(case):
+    if case.get("kind") == "entry":
+        return entry_case(case["p"], case["seed"], case["keys"], case["entry"])
     if case.get("kind") == "rank":
         sk = SK.make("hll", case["p"], case["seed"])
         sk.add(case["key"])
